@@ -10,7 +10,7 @@
    intermediate states INSIDE shutil.rmtree / a cross-device shutil.move; the check kills the real
    commands before every syscall-level mutation for that. *)
 From TV Require Import Prelude.Str Prog.Prog Cmd.Put Cmd.Scan Cmd.Empty Cmd.Rm Cmd.Restore
-  Proofs.ProgProofs Proofs.PathProofs Proofs.OrderProofs Proofs.RestoreProofs.
+  Proofs.ProgProofs Proofs.PathProofs Proofs.OrderProofs Proofs.RestoreProofs World.World Proofs.WorldProofs Proofs.WorldPurge.
 Open Scope N_scope.
 
 Theorem rm_payload_before_info : forall o,
@@ -32,6 +32,15 @@ Print Assumptions restore_move_before_info.
 Theorem payload_is_not_info : forall p, is_info_path (path_of_backup_copy p) = false.
 Proof. exact pobc_not_info. Qed.
 Print Assumptions payload_is_not_info.
+
+(* ---- on the tree of files (World.v), trash-rm: whenever an info file is removed, in whatever state a consistent
+   execution is in at that moment, its payload does not exist (it was removed, or was found absent, and nothing
+   re-creates it: a purge creates nothing).  So at no instant between two operations does a payload exist whose
+   info this run has removed. ---- *)
+Theorem rm_payload_is_gone_when_info_is_removed : forall o,
+  all_runs (fun t _ => forall s, wok payload_gone s t) (rm_main o).
+Proof. exact rm_payload_gone_lemma. Qed.
+Print Assumptions rm_payload_is_gone_when_info_is_removed.
 
 (* ---- non-vacuity: the swapped order is rejected ---- *)
 Example info_first_is_rejected :
